@@ -255,7 +255,9 @@ func (fc *fileCtx) walkBody(decl *ast.FuncDecl, ftype *ast.FuncType, body *ast.B
 // candidate helpers
 
 type helper struct {
-	fn      *types.Func
+	fn      *types.Func // nil for a local closure
+	sig     *types.Signature
+	cvar    types.Object // the variable a local closure is bound to
 	f       *Func
 	defers  []*ast.DeferStmt
 	results int
@@ -346,7 +348,7 @@ func (nz *normalizer) candidate(fn *types.Func) (res *helper) {
 	if f.Decl.Recv != nil && (len(f.Decl.Recv.List) != 1 || len(f.Decl.Recv.List[0].Names) > 1) {
 		return nil
 	}
-	h := &helper{fn: fn, f: f, results: sig.Results().Len()}
+	h := &helper{fn: fn, sig: sig, f: f, results: sig.Results().Len()}
 	info := f.Info()
 	named := false
 	if f.Decl.Type.Results != nil {
@@ -413,7 +415,10 @@ func (fc *fileCtx) candidateCall(call *ast.CallExpr) *helper {
 		return nil
 	}
 	fn, ok := calleeObj(fc.pk.Info, call).(*types.Func)
-	if !ok || fn.Pkg() != fc.pk.Types {
+	if !ok {
+		return fc.closureCandidate(call)
+	}
+	if fn.Pkg() != fc.pk.Types {
 		return nil
 	}
 	// a method called through an interface is not a static call
@@ -738,9 +743,12 @@ func (fc *fileCtx) sameBinding(h *helper, at token.Pos) bool {
 				ok = false
 			}
 		default:
-			pkgLevel := o.Pkg() != nil && o.Pkg() == h.fn.Pkg() && o.Parent() == o.Pkg().Scope()
+			pkgLevel := o.Pkg() != nil && o.Pkg() == h.f.Pkg.Types && o.Parent() == o.Pkg().Scope()
 			universe := o.Pkg() == nil && o.Parent() == types.Universe
-			if pkgLevel || universe {
+			// a closure's free variables: locals of the enclosing function, which must be the same
+			// variables at the call site (not shadowed in between)
+			free := h.f.Lit != nil && isLocal(o) && (o.Pos() < h.f.Lit.Pos() || o.Pos() > h.f.Lit.End())
+			if pkgLevel || universe || free {
 				if _, got := scope.LookupParent(id.Name, at); got != o {
 					ok = false
 				}
@@ -802,7 +810,7 @@ func (fc *fileCtx) substitutable(h *helper, param types.Object, arg ast.Expr) bo
 		}
 		return valueCopy && param != nil && rootObj(hinfo, e) == param
 	}
-	ast.Inspect(h.f.Decl, func(n ast.Node) bool {
+	ast.Inspect(h.node(), func(n ast.Node) bool {
 		switch x := n.(type) {
 		case *ast.AssignStmt:
 			for _, l := range x.Lhs {
@@ -859,7 +867,7 @@ func (fc *fileCtx) plan(h *helper, call *ast.CallExpr, at token.Pos) *inlPlan {
 	nz := fc.nz
 	p := nz.p
 	hf := h.f
-	htf := p.Fset.File(hf.Decl.Pos())
+	htf := p.Fset.File(h.node().Pos())
 	if htf == nil {
 		return nil
 	}
@@ -888,10 +896,10 @@ func (fc *fileCtx) plan(h *helper, call *ast.CallExpr, at token.Pos) *inlPlan {
 		}
 		return true
 	})
-	sig := h.fn.Type().(*types.Signature)
+	sig := h.sig
 	// receiver
 	var args []ast.Expr
-	if hf.Decl.Recv != nil {
+	if h.recv() != nil {
 		sel, ok := ast.Unparen(call.Fun).(*ast.SelectorExpr)
 		if !ok {
 			return nil
@@ -918,8 +926,8 @@ func (fc *fileCtx) plan(h *helper, call *ast.CallExpr, at token.Pos) *inlPlan {
 			return nil
 		}
 		var ro types.Object
-		if len(hf.Decl.Recv.List[0].Names) == 1 {
-			ro = hinfo.Defs[hf.Decl.Recv.List[0].Names[0]]
+		if len(h.recv().List[0].Names) == 1 {
+			ro = hinfo.Defs[h.recv().List[0].Names[0]]
 		}
 		name := ""
 		if ro != nil && used[ro] {
@@ -939,7 +947,7 @@ func (fc *fileCtx) plan(h *helper, call *ast.CallExpr, at token.Pos) *inlPlan {
 	}
 	args = call.Args
 	i := 0
-	for _, fl := range hf.Decl.Type.Params.List {
+	for _, fl := range hf.Type.Params.List {
 		names := fl.Names
 		if len(names) == 0 {
 			names = []*ast.Ident{nil}
@@ -1016,11 +1024,11 @@ func (fc *fileCtx) plan(h *helper, call *ast.CallExpr, at token.Pos) *inlPlan {
 func (pl *inlPlan) namedResultDecls(fc *fileCtx) (decls string, names []string, ok bool) {
 	hf := pl.h.f
 	hinfo := hf.Info()
-	if hf.Decl.Type.Results == nil {
+	if hf.Type.Results == nil {
 		return "", nil, true
 	}
 	k := 0
-	for _, fl := range hf.Decl.Type.Results.List {
+	for _, fl := range hf.Type.Results.List {
 		if len(fl.Names) == 0 {
 			k++
 			continue
@@ -1060,7 +1068,7 @@ func (pl *inlPlan) renderWith(a, b token.Pos, named []string, keepReturns bool, 
 	var renames []srcEdit
 	selBase := map[*ast.Ident]bool{}
 	starOf := map[*ast.Ident]*ast.StarExpr{}
-	ast.Inspect(pl.h.f.Decl, func(n ast.Node) bool {
+	ast.Inspect(pl.h.node(), func(n ast.Node) bool {
 		switch x := n.(type) {
 		case *ast.SelectorExpr:
 			if id, isId := x.X.(*ast.Ident); isId {
@@ -1073,7 +1081,7 @@ func (pl *inlPlan) renderWith(a, b token.Pos, named []string, keepReturns bool, 
 		}
 		return true
 	})
-	ast.Inspect(pl.h.f.Decl, func(n ast.Node) bool {
+	ast.Inspect(pl.h.node(), func(n ast.Node) bool {
 		id, ok := n.(*ast.Ident)
 		if !ok || id.Pos() < a || id.End() > b {
 			return true
@@ -1367,6 +1375,7 @@ func (fc *fileCtx) inlineSite(cs *callSite) (string, bool) {
 			})
 			var b strings.Builder
 			b.WriteString(nz.lineDir(cs.at))
+			b.WriteString(keepClosure(h))
 			b.WriteString(pl.bindings())
 			b.WriteString(ndecls)
 			b.WriteString(nz.lineDir(h.f.Body.Lbrace))
@@ -1452,6 +1461,7 @@ func (fc *fileCtx) inlineSite(cs *callSite) (string, bool) {
 			})
 			var b strings.Builder
 			b.WriteString(nz.lineDir(cs.at))
+			b.WriteString(keepClosure(h))
 			b.WriteString(pl.bindings())
 			b.WriteString(ndecls)
 			b.WriteString(nz.lineDir(h.f.Body.Lbrace))
@@ -1488,6 +1498,9 @@ func (fc *fileCtx) inlineSite(cs *callSite) (string, bool) {
 	})
 	var b strings.Builder
 	b.WriteString(nz.lineDir(cs.at))
+	if h.cvar != nil {
+		b.WriteString("_ = " + h.cvar.Name() + "\n")
+	}
 	b.WriteString(decls)
 	b.WriteString("{\n")
 	b.WriteString(pl.bindings())
@@ -1569,7 +1582,7 @@ func (fc *fileCtx) inlineTail(h *helper, call *ast.CallExpr, ftype *ast.FuncType
 	body := pl.render(h.f.Body.Lbrace+1, h.f.Body.Rbrace, "", nil, true)
 	var b strings.Builder
 	b.WriteString(fc.nz.lineDir(call.Pos()))
-	b.WriteString("{\n" + pl.bindings() + decls)
+	b.WriteString("{\n" + keepClosure(h) + pl.bindings() + decls)
 	b.WriteString(fc.nz.lineDir(h.f.Body.Lbrace))
 	b.WriteString(body)
 	b.WriteString(fc.nz.lineDir(call.Pos()))
@@ -1588,7 +1601,7 @@ func (fc *fileCtx) inlineDefer(h *helper, call *ast.CallExpr) (string, bool) {
 	body := pl.render(h.f.Body.Lbrace+1, h.f.Body.Rbrace, "", nil, true)
 	var b strings.Builder
 	b.WriteString(fc.nz.lineDir(call.Pos()))
-	b.WriteString("{\n" + pl.bindings())
+	b.WriteString("{\n" + keepClosure(h) + pl.bindings())
 	b.WriteString("defer func() {")
 	b.WriteString(fc.nz.lineDir(h.f.Body.Lbrace))
 	b.WriteString(body)
@@ -1948,11 +1961,228 @@ func (fc *fileCtx) inlineTailWith(h *helper, call *ast.CallExpr, pre, post []str
 	})
 	var b strings.Builder
 	b.WriteString(fc.nz.lineDir(call.Pos()))
-	b.WriteString("{\n" + pl.bindings() + decls)
+	b.WriteString("{\n" + keepClosure(h) + pl.bindings() + decls)
 	b.WriteString(fc.nz.lineDir(h.f.Body.Lbrace))
 	b.WriteString(body)
 	b.WriteString(fc.nz.lineDir(call.Pos()))
 	b.WriteString("}")
 	fc.nz.inlined[h.f.Name]++
 	return b.String(), true
+}
+
+// node is the declaration or literal of the helper; recv its receiver list.
+func (h *helper) node() ast.Node {
+	if h.f.Decl != nil {
+		return h.f.Decl
+	}
+	return h.f.Lit
+}
+
+func (h *helper) recv() *ast.FieldList {
+	if h.f.Decl != nil {
+		return h.f.Decl.Recv
+	}
+	return nil
+}
+
+// closureCandidate: the call's callee is a local variable with one definition, a
+// function literal (`report := func(..) {..}`), that is only ever called.
+func (fc *fileCtx) closureCandidate(call *ast.CallExpr) *helper {
+	info := fc.pk.Info
+	id, ok := ast.Unparen(call.Fun).(*ast.Ident)
+	if !ok || call.Ellipsis != token.NoPos {
+		return nil
+	}
+	v, ok := info.Uses[id].(*types.Var)
+	if !ok || !isLocal(v) {
+		return nil
+	}
+	nz := fc.nz
+	// a closure that existed when the rules were written is a shape the rules know
+	if tf := nz.p.FuncOfLitVar(v); tf != "" {
+		old := tf
+		if o, renamed := nz.p.renamed[tf]; renamed {
+			old = o
+		}
+		for _, name := range frozenClosures[old] {
+			if name == v.Name() {
+				return nil
+			}
+		}
+	}
+	// find the defining literal
+	var lit *ast.FuncLit
+	ndef := 0
+	uses, calls := 0, 0
+	for _, file := range []*ast.File{fc.file} {
+		callee := map[*ast.Ident]bool{}
+		ast.Inspect(file, func(n ast.Node) bool {
+			switch x := n.(type) {
+			case *ast.CallExpr:
+				if cid, isId := ast.Unparen(x.Fun).(*ast.Ident); isId {
+					callee[cid] = true
+				}
+			case *ast.AssignStmt:
+				for i, l := range x.Lhs {
+					if objOf(info, l) == v {
+						ndef++
+						if len(x.Lhs) == len(x.Rhs) {
+							lit, _ = ast.Unparen(x.Rhs[i]).(*ast.FuncLit)
+						}
+					}
+				}
+			case *ast.ValueSpec:
+				for i, nm := range x.Names {
+					if info.Defs[nm] == v {
+						ndef++
+						if i < len(x.Values) {
+							lit, _ = ast.Unparen(x.Values[i]).(*ast.FuncLit)
+						}
+					}
+				}
+			case *ast.UnaryExpr:
+				if x.Op == token.AND && objOf(info, x.X) == v {
+					ndef += 2
+				}
+			}
+			return true
+		})
+		ast.Inspect(file, func(n ast.Node) bool {
+			if uid, isId := n.(*ast.Ident); isId && info.Uses[uid] == v {
+				uses++
+				if callee[uid] {
+					calls++
+				}
+			}
+			return true
+		})
+	}
+	if lit == nil || ndef != 1 || uses != calls {
+		return nil
+	}
+	// the call must come after the literal and outside it
+	if call.Pos() < lit.End() {
+		return nil
+	}
+	f := nz.p.FuncOfLit(lit)
+	if f == nil {
+		return nil
+	}
+	sig, _ := info.Types[lit].Type.(*types.Signature)
+	if sig == nil || sig.Variadic() {
+		return nil
+	}
+	h := &helper{f: f, sig: sig, cvar: v, results: sig.Results().Len()}
+	ok = true
+	top := map[ast.Stmt]bool{}
+	for _, s := range lit.Body.List {
+		top[s] = true
+	}
+	named := false
+	if lit.Type.Results != nil {
+		for _, fl := range lit.Type.Results.List {
+			if len(fl.Names) > 0 {
+				named = true
+			}
+		}
+	}
+	ast.Inspect(lit.Body, func(n ast.Node) bool {
+		switch x := n.(type) {
+		case *ast.FuncLit:
+			return false
+		case *ast.LabeledStmt:
+			ok = false
+		case *ast.BranchStmt:
+			if x.Tok == token.GOTO || x.Label != nil {
+				ok = false
+			}
+		case *ast.DeferStmt:
+			ok = false // a deferred call inside the closure: not inlined
+		case *ast.ReturnStmt:
+			if len(x.Results) == 0 && h.results > 0 && !named {
+				ok = false
+			}
+		case *ast.Ident:
+			if info.Uses[x] == v {
+				ok = false // recursive
+			}
+			if b, isB := info.Uses[x].(*types.Builtin); isB && b.Name() == "recover" {
+				ok = false
+			}
+		}
+		return ok
+	})
+	if !ok {
+		return nil
+	}
+	return h
+}
+
+// keepClosure: a local closure all of whose calls are inlined would be an unused variable.
+func keepClosure(h *helper) string {
+	if h != nil && h.cvar != nil {
+		return "_ = " + h.cvar.Name() + "\n"
+	}
+	return ""
+}
+
+// closureBindings lists, per top-level function, the local variables that are
+// bound to a function literal.
+func closureBindings(p *Program) map[string][]string {
+	out := map[string][]string{}
+	for _, f := range p.Funcs("") {
+		if f.Decl == nil || f.Obj == nil || f.Body == nil {
+			continue
+		}
+		info := f.Info()
+		seen := map[string]bool{}
+		ast.Inspect(f.Body, func(n ast.Node) bool {
+			switch x := n.(type) {
+			case *ast.AssignStmt:
+				if len(x.Lhs) == len(x.Rhs) {
+					for i, l := range x.Lhs {
+						if _, isLit := ast.Unparen(x.Rhs[i]).(*ast.FuncLit); isLit {
+							if o := objOf(info, l); o != nil && isLocal(o) && !seen[o.Name()] {
+								seen[o.Name()] = true
+								out[f.Obj.FullName()] = append(out[f.Obj.FullName()], o.Name())
+							}
+						}
+					}
+				}
+			case *ast.ValueSpec:
+				for i, nm := range x.Names {
+					if i < len(x.Values) {
+						if _, isLit := ast.Unparen(x.Values[i]).(*ast.FuncLit); isLit && !seen[nm.Name] {
+							seen[nm.Name] = true
+							out[f.Obj.FullName()] = append(out[f.Obj.FullName()], nm.Name)
+						}
+					}
+				}
+			}
+			return true
+		})
+	}
+	return out
+}
+
+func dumpClosures(p *Program) {
+	m := closureBindings(p)
+	var ks []string
+	for k := range m {
+		ks = append(ks, k)
+	}
+	sort.Strings(ks)
+	fmt.Println("package main\n\n// Code generated by `sunlint -dumpclosures`; local variables bound to function literals on the tree the rules were written against.\n\nvar frozenClosures = map[string][]string{")
+	for _, k := range ks {
+		sort.Strings(m[k])
+		fmt.Printf("\t%q: {", k)
+		for i, v := range m[k] {
+			if i > 0 {
+				fmt.Print(", ")
+			}
+			fmt.Printf("%q", v)
+		}
+		fmt.Println("},")
+	}
+	fmt.Println("}")
 }
